@@ -16,6 +16,14 @@ P = {
          "Not yet under contract in this tree (listed as undecided, not assumed): interior routing/insert, the two split side decisions, delete_of's equality test, the slicing blocks, the cursor's inline tuple tests, permutation::rearrange.", '5 (C18)'),
  'C15': (True, "value::create_value<false>/<true>, delete_value, get_body, get_len, get_gc_info, need_delete, remove_delete_flag, is_value_ptr and link_or_value::{get_value, get_next_layer, set_value, set_next_layer, init_lv} carry contracts discharged for all lengths with v_len + max(a,8) < 2^32 and all power-of-two alignments 1..4096: allocation triple, header, get_len(create) == v_len, get_body(create) aligned to the requested alignment and inside the block, bytes equal (ghost index), tag bits, inline values by value, set_value = exactly one store with created_value_ptr designating the stored copy and the old block handed out (not freed) or freed once, readers derive the pointer from one loaded word under arbitrary interference.",
          "Undecided: the reader side inside get/scan (single-load hand-out, see C01/C04) and put's overwrite path are not yet under contract; lifetime of the old block while a reader uses it is C07.", '5 (C15)'),
+ 'C14': (True, "thread_info::gain_the_right (one CAS false->true or no store and the slot observed occupied; both memory modes), set/get_begin_epoch, set/get_running, thread_info_table::assign_thread_info and enter over a session table of SYMBOLIC configured capacity 1..300 (loop contract + ghost slot indices: OK => the token's slot was claimed by this call's CAS and its begin epoch stored before returning, sequentially the first free slot and no other slot changed; WARN_MAX_SESSIONS => nothing stored, sequentially every slot occupied), leave_thread_info / leave (begin_epoch := 0 stored before running := false, that slot only), thread_info_table::init (every slot free).",
+         "Undecided: the schedule-quantified statements (two concurrent enters never share a token follows from the single-location CAS contract only on paper); whether the published begin epoch is still current (window between get_epoch and set_begin_epoch, see C07).", '5 (C14)'),
+ 'C16': (True, "init(): from ANY prior state (in particular the one fin() leaves) every slot ends free with begin epoch 0 and both background threads are started exactly once with their stop flag clear (ghost snapshot at thread start); gc_thread leaves its loop only after observing the stop flag and runs exactly one pass when started with the flag set - which is why the start condition matters; set_*_end / join_* / invoke_* contracts. This obligation failed on the pinned tree (genuine defect, repaired by fix commit e61c384, recorded in known_findings.txt).",
+         "Undecided: fin()/destroy() leaving an empty usable system (needs the destroy recursion and scan units), wall-clock behaviour of the background threads beyond their start conditions.", '5 (C16)'),
+ 'C03': (True, "check_empty_scan_range returns ERR_BAD_USAGE exactly on the documented set of empty/inverted ranges: proved for ALL key lengths with string_view::compare abstracted to an uninterpreted sign, and (labelled bounded, not counted) against the exact bytewise comparison for keys up to 264 bytes.",
+         "Undecided in this tree: the remaining argument checks of scan(), the descent-key obligation (INF ignores the key), the per-entry endpoint tests of scan_border and the exactness of the multi-node result.", '5 (C03)'),
+ 'C01': (True, "ONE clause of C01 only - 'an OK get never yields a null or torn value': get<char>(tree_instance*, ...) as a reader skeleton under arbitrary interference on every slot-word, version and root-pointer load (loop contract over the goto-retry dispatcher, descent and leaf lookup by assumed skeleton contracts): whenever it returns OK, out.first/out.second are body/length of one loaded slot word that is a non-empty out-of-line value word. The obligation failed on the pinned tree (get racing remove returned OK with nullptr; repaired by fix commit 8da532e, native stress witness attached as replay).",
+         "NOT decided (no contract can express it): linearizability of put/get/remove over concurrent histories. Assumed: skeleton contracts of find_border and get_lv_of; rely on slot-word shapes (writer-side obligations proved under C15).", '5 (C01/C04)'),
 }
 NA = {
  'C06': "schedule-quantified: the order of four loads at each node boundary against concurrent inserts is not expressible as a pre/postcondition of one call; bounded thread exploration would be a different technique family (DESIGN 6)",
